@@ -9,6 +9,8 @@ mod s2h_hll;
 mod s3_reservoir;
 mod s4_digest;
 mod s5_topk;
+mod life;
+mod s7_lifecycle;
 mod s8_storage;
 
 use framework::*;
@@ -78,6 +80,10 @@ fn plan(ctx: &mut CheckCtx, k: f64) {
             ctx.required_probes = vec!["inflated_newcomer_while_heap_has_room", "collision_free_prefix", "prefix_with_sketch_error"];
             ctx.run::<s5_topk::S5b>(n(60_000));
         }
+        "C19" => {
+            ctx.required_probes = vec!["rng_stream_aligned_at_nonzero_position", "fork", "node_restart", "full_insert"];
+            ctx.run::<s7_lifecycle::S7>(n(90_000));
+        }
         "C20" => {
             ctx.required_probes = vec!["accepted", "rejected", "round_trip_ok", "store_truncate", "store_bitflip", "store_torn", "store_field_drop", "store_field_dup", "store_field_range", "store_field_retype"];
             ctx.run::<s8_storage::S8>(n(900));
@@ -123,6 +129,7 @@ fn replay(path: &str) -> i32 {
         "S8-storage" => replay_case::<s8_storage::S8>(&doc, prop),
         "S2-replicas" => replay_case::<s2_replicas::S2>(&doc, prop),
         "S2h-hll-stream-transport" => replay_case::<s2h_hll::S2h>(&doc, prop),
+        "S7-lifecycle" => replay_case::<s7_lifecycle::S7>(&doc, prop),
         "S4-digest" => replay_case::<s4_digest::S4>(&doc, prop),
         "S3a-reservoir-invariants" => replay_case::<s3_reservoir::S3a>(&doc, prop),
         "S3b-reservoir-uniformity" => replay_case::<s3_reservoir::S3b>(&doc, prop),
@@ -145,7 +152,7 @@ fn replay(path: &str) -> i32 {
 }
 
 /// Claimed properties (everything `plan` knows).
-const CLAIMED: &[&str] = &["C01", "C02", "C04", "C05", "C06", "C09", "C10", "C12", "C13", "C14", "C15", "C16", "C17", "C18", "C20"];
+const CLAIMED: &[&str] = &["C01", "C02", "C04", "C05", "C06", "C09", "C10", "C12", "C13", "C14", "C15", "C16", "C17", "C18", "C19", "C20"];
 
 /// Proves determinism on a sample: every claimed check is run in separate processes with the same
 /// seed at 1, 5 and 16 workers (and the 16-worker one twice); the event-log hashes (per-run
